@@ -306,7 +306,7 @@ fn three_d(rng: &mut Rng) {
 
 pub fn run(rng: &mut Rng, n: usize) {
     for _ in 0..n {
-        two_d(rng);
-        three_d(rng);
+        case("param.case", "c08.library_call_panics", || two_d(rng));
+        case("param.case", "c08.library_call_panics", || three_d(rng));
     }
 }
